@@ -312,7 +312,8 @@ def handleScan (j : Json) : Except String Json := do
     | .eol i => Json.arr #[Json.num (Int.ofNat i), Json.null, "EOL in string"]
     | .unmatched i => Json.arr #[Json.num (Int.ofNat i), Json.null, "Unmatched"]
   return Json.mkObj [("py", Json.arr evs.toArray), ("py_rc", rcJson (Scan.Py.removeComments cs)),
-                     ("cpp_rc", rcJson (Scan.Cpp.removeComments cs))]
+                     ("cpp_rc", rcJson (Scan.Cpp.removeComments cs)),
+                     ("strip_spaces", Json.str (String.ofList (Scan.stripSpaces cs)))]
 
 /-! ### Imports: file prefixes -/
 def handleImports (j : Json) : Except String Json := do
